@@ -243,6 +243,31 @@ def gen_merge(rng, PARAMS, NMEAS, e_c, TIMES):
             'ident': rng.random() < 0.2, 'pm2': pm2, 'mm2': mm2, 'env': env}
 
 
+def enum_merge(e_c):
+    """exhaustive small scope: two body names, every inner / outer entry absent, renamed (3 targets incl. a clash) or
+    dropped; three parameter-mapping patterns (none, chained substitution, swap); inner plain / with constraint /
+    with identifier"""
+    import itertools
+    names = ['m0', 'm1']
+    opts1 = ['-', 'm0', 'm1', 'm2', None]
+    pms = [({}, {}),
+           ({'a': ['+', ['v', 'b'], e_c(1)]}, {'b': ['*', ['v', 'a'], e_c(2)]}),
+           ({'a': ['v', 'b'], 'b': ['v', 'a']}, {'a': ['v', 'c'], 'b': ['+', ['v', 'a'], ['v', 'b']]})]
+    out = []
+    for v0, v1 in itertools.product(opts1, repeat=2):
+        mm1 = {n: v for n, v in zip(names, (v0, v1)) if v != '-'}
+        ext = sorted({mm1.get(n, n) for n in names} - {None})
+        for vals in itertools.product(['-', 'm0', 'm3', None], repeat=len(ext)):
+            mm2 = {n: v for n, v in zip(ext, vals) if v != '-'}
+            k = len(out)
+            pm1, pm2 = pms[k % 3]
+            variant = (k // 3) % 4
+            out.append({'kind': 'merge', 'names': names, 'pars': ['a', 'b'], 'pm1': pm1, 'mm1': mm1,
+                        'cs1': [[True, ['v', 'b'], e_c(100)]] if variant == 1 else [], 'ident': variant == 2,
+                        'pm2': pm2, 'mm2': mm2, 'env': {'a': '1', 'b': '2', 'c': '1/2', 'd': '3'}})
+    return out
+
+
 def run_merge(case, e_str, num):
     from qupulse.pulses import TablePT, MappingPT
     pars = case['pars']
